@@ -61,6 +61,14 @@ Subst(T, sg) ==
     [] T.t \in {"union", "inter"} -> [T EXCEPT !.ms = [i \in DOMAIN T.ms |-> Subst(T.ms[i], sg)]]
     [] T.t = "app"   -> [T EXCEPT !.args = [i \in DOMAIN T.args |-> Subst(T.args[i], sg)]]
     [] T.t = "deco"  -> [T EXCEPT !.a = Subst(T.a, sg)]
+    \* type operators (terms of TsEval): a generic body may use them on its parameters
+    [] T.t = "util"  -> [T EXCEPT !.args = [i \in DOMAIN T.args |-> Subst(T.args[i], sg)]]
+    [] T.t = "keyof" -> [T EXCEPT !.a = Subst(T.a, sg)]
+    [] T.t = "index" -> [T EXCEPT !.a = Subst(T.a, sg), !.i = Subst(T.i, sg)]
+    [] T.t = "cond"  -> [T EXCEPT !.a = Subst(T.a, sg), !.b = Subst(T.b, sg), !.x = Subst(T.x, sg), !.y = Subst(T.y, sg)]
+    \* the key variable of a mapped type is a binder: it shadows a parameter of the same name inside the value type
+    [] T.t = "mapped" -> [T EXCEPT !.keys = Subst(T.keys, sg),
+                                   !.v = Subst(T.v, [k \in DOMAIN sg \ {T.kv} |-> sg[k]])]
     [] OTHER -> T
 \* body of N<args>
 Instantiate(env, n, args) ==
